@@ -316,7 +316,7 @@ def run(tier, seed):
     for n in range(1, K + 1):
         total = len(sigs(n, False))
         tasks += [("sigs", n, False, lo, hi) for lo, hi in par.chunks(total, 64 if total > 5000 else 1)]
-    for n in range(K + 1, K + 3):
+    for n in range(K + 1, K + 3 if tier == "quick" else K + 2):  # quick: 5-6 nodes over 2 leaves; thorough: 6 nodes
         total = len(sigs(n, True))
         tasks += [("sigs", n, True, lo, hi) for lo, hi in par.chunks(total, 96 if total > 5000 else 1)]
     tasks.append(("extra",))
